@@ -31,6 +31,22 @@ of that call is stored in (C10_helpers.returned_into: object identity by creatio
 helper's loop over a pipeline on its parameter is evaluated row by row on the caller's table.  Boolean closures written
 with branches (`a && b`) contribute every decision on the way to `true`; where a joined value hides one, the entry is
 opaque (UNPROVEN), never silently accepted.
+Spellings that are one and the same obligation (round 4; C10_helpers):
+  * the directory test: Path::is_dir(p) = fs::metadata(p).map(|m| m.is_dir()).unwrap_or(false) = .is_ok_and(..) = .map_or(false, ..)
+    = `Ok(m) = fs::metadata(p)` .. `m.is_dir()` / `m.file_type().is_dir()` = a private helper returning one of these
+    (dir_test_of; fs::symlink_metadata / DirEntry::metadata are *not*), and a boolean assigned on several paths (`let d = match
+    fs::metadata(p) { Ok(m) => m.is_dir(), Err(_) => false }`) stands for the decisions that lead to the assignment that can make
+    it true (joined_groups) — in the guards of an entry and in the "not a directory" edges of the CFG search alike
+  * the row table: nested (`(dir, &[build names], &[launch names])`, inner loops over the slices; a loop over an empty
+    slice contributes nothing), loops by dominance (natural_loops: lib/effects merges a nested loop with its outer loop),
+    every enclosing loop unrolled on the rows of its literal table
+  * the target delta: a field, the payload of what a private helper hands out for the row's scope (target_fields), a
+    reference chosen by if / else (joined_alternatives: the decisions around the assignments evaluated on the row), a
+    parameter of a local closure that the row loop calls directly (expanded like a private helper); `match` decisions the
+    insert runs under are evaluated on the row as well (a call in the Scope::Build arm does not run for a Launch row)
+  * R5 writers: a private helper only read_from_layer_dir reaches, which merely takes `&mut self.<field>`, is part of the reader
+  * R5 writer/scopes: every file write is attributed to the fields of self its path / content are computed from, private
+    helpers looked into (a plan computed from the delta, written later)
 Not decided: what is_dir returns for each file-type assignment (kernel / std).
 """
 from . import layer_env_common as L
@@ -84,7 +100,7 @@ def run(ctx, rep):
     #   (target delta, behaviour, variable name, value) + the branch decisions it runs under.
     from .lib.effects import Effects, guards_of
     from . import C10_helpers as H
-    E2 = Effects(prog, sl, vocab={L.INSERT: ('INSERT', None)})
+    E2 = H.effects_with_natural_loops(prog, sl, {L.INSERT: ('INSERT', None)})
     ins = []
     leaks = []
     ok_value = sl.mk_unwrap(sl.local(g, 0), 1)
@@ -97,7 +113,7 @@ def run(ctx, rep):
         if fld is None:
             # the delta a private helper creates, fills and returns, stored in an implicit-path field by the caller
             fld = H.returned_into(prog, sl, g, ok_value, e.args[0], levels)
-        if fld is None and not any(x[0] == 'field' and x[2] in H.FIELDS for x in walk(e.args[0])):
+        def outside_env_reader():
             # an insert into a delta that is being read from an env directory, not an implicit path — provided it does
             # happen inside the env directory reader: anything else read_from_layer_dir puts into an explicit delta
             # is written back by write_to_layer_dir (R5)
@@ -110,10 +126,29 @@ def run(ctx, rep):
                     f_ = prog.fns.get(f_.parent) if f_.kind == 'Closure' and f_.parent else None
                     if f_ is None:
                         break
-            if L.R_DIR not in through:
+            return L.R_DIR not in through
+        # `env.implicit_delta_mut(&scope)`: which delta a private helper hands out may depend on the row: resolved per row
+        deferred = fld is None and H.is_helper_result(prog, e.args[0])
+        # `let target = if spec.launch { &mut env.layer_paths_launch } else { &mut env.layer_paths_build }`: which assignment
+        # reaches the insert is decided by the branch decisions around the assignments, evaluated on the row
+        alts_ = H.joined_alternatives(E2, e.call, 0, e.mapping) if fld is None and not deferred and tgt[0] == 'phi' else None
+        deferred = deferred or bool(alts_)
+        if fld is None and not deferred and not any(x[0] == 'field' and x[2] in H.FIELDS for x in walk(e.args[0])):
+            if outside_env_reader():
                 leaks.append(e)
             continue
-        conds = [vs for cd, vs, subj in guards_of(E2, e) if cd.kind == 'bool']
+        gl = H.guards_with_mapping(E2, e)
+        if any(H.dead_guard(cd, subj) for cd, vs, subj, m_ in gl):
+            continue        # the body of a loop over an empty literal (`for name in &[]`, a row without entries of that kind)
+        # (a directory test spelled through fs::metadata / a private helper is the decision Path::is_dir(p) makes: its
+        # normal form is added as another spelling of the same decision)
+        # ... and a test of a boolean that was assigned on several paths (`let d = match fs::metadata(p) { Ok(m) => m.is_dir(),
+        # Err(_) => false }`) stands for the decisions that lead to the assignment that can make it true
+        conds = []
+        for cd, vs, subj, m_ in gl:
+            if cd.kind == 'bool':
+                jg = H.joined_groups(E2, cd, m_)
+                conds.extend(jg if jg else [H.dir_views(sl, vs)])
         views = [x for vs in conds for x in vs]
         gidx = [i for i, vs in enumerate(conds) for _ in vs]
         # a pipeline in the header of a loop that lib/effects unrolled (`for row in rows.into_iter().filter(p)`): the
@@ -121,7 +156,34 @@ def run(ctx, rep):
         hviews, hopq = H.header_guards(E2, e)
         # a loop over a table that is literal only in the caller's terms (the rows handed to a private helper as a
         # slice) is unrolled here, row by row, like lib/effects does for a loop over a table literal of its own function
-        for a, vs2, opq in H.unrolled(E2, e, tuple(e.args[:4]), views):
+        # (the `match` decisions the insert runs under travel with the boolean ones, so that a call in the `Scope::Build` arm
+        # is not taken to run for a row whose scope is Scope::Launch)
+        pviews = H.variant_views(gl)
+        aviews = [c_ for _, cs_ in (alts_ or ()) for c_ in cs_]
+        for a, vs2, opq in H.unrolled(E2, e, tuple(e.args[:4]) + tuple(v_ for v_, _ in (alts_ or ())), views + pviews + aviews):
+            if H.dead_row(prog, sl, vs2[len(views):len(views) + len(pviews)]):
+                continue
+            avs = vs2[len(views) + len(pviews):len(views) + len(pviews) + len(aviews)]
+            vs2 = vs2[:len(views)] + vs2[len(views) + len(pviews) + len(aviews):]
+            if deferred:
+                tv = a[0]
+                if alts_:
+                    live, pos = [], 0
+                    for k, (_, cs_) in enumerate(alts_):
+                        if H.alt_feasible(prog, sl, avs[pos:pos + len(cs_)]):
+                            live.append(a[4 + k])
+                        pos += len(cs_)
+                    if len(live) == 1:
+                        tv = live[0]
+                tf = H.target_fields(prog, sl, tv)
+                if tf is None or not (tf & set(H.FIELDS)):
+                    if outside_env_reader() and e not in leaks:
+                        leaks.append(e)
+                    continue
+                if len(tf) > 1:
+                    rep.unproven('R3', 'insert/target', e.where(), 'which delta the insert goes to could not be decided: ' + vstr(a[0])[:100])
+                    continue
+                fld = next(iter(tf))
             groups = [[] for _ in conds]
             for i, gi in enumerate(gidx):
                 groups[gi].append(vs2[i])
@@ -139,6 +201,7 @@ def run(ctx, rep):
     rep.floor('R3', 'insert_sites', len(ins))
     got = set()
     delims = set()
+    delim_entries = []
     per_beh = {}
     for e in ins:
         fld = e.fld
@@ -164,8 +227,10 @@ def run(ctx, rep):
             rep.check(ok_v, 'R3', 'insert/Prepend/value', e.where, 'Prepend(name, <layer>/<dir>)', 'Prepend entry value is not a directory of the layer: ' + vstr(val)[:100])
             if ok_v:
                 got.add((name[1], scope, cs[0]))
-                if cs[0] not in gdirs and e.opaque:
-                    rep.unproven('R2', 'insert/Prepend/guard', e.where, 'implicit Prepend entry %s=<layer>/%s passes a filter whose predicate could '
+                if cs[0] not in gdirs and (e.opaque or any(H.mentions_dir_test(v, root, L.comps, cs[0]) for v, _ in e.views)):
+                    # (a decision that is computed from a symlink-following stat of the row's own directory but is not one of
+                    # the spellings C10_helpers.dir_test_of knows is undecided, not wrong)
+                    rep.unproven('R2', 'insert/Prepend/guard', e.where, 'implicit Prepend entry %s=<layer>/%s passes a filter / test whose predicate could '
                                  'not be expressed; no Path::is_dir test of that directory was recognised (guards: %s)' % (name[1], cs[0], gdirs))
                 else:
                     rep.check(cs[0] in gdirs, 'R2', 'insert/Prepend/guard', e.where, 'guarded by is_dir(<layer>/%s) == true' % cs[0],
@@ -174,6 +239,7 @@ def run(ctx, rep):
             rep.check(val == ('const', ':'), 'R3', 'insert/Delimiter/value', e.where, 'Delimiter(name, ":")',
                       'Delimiter entry is not the platform path-list separator ":": ' + vstr(val)[:80])
             delims.add((name[1], scope, tuple(sorted(set(gdirs)))))
+            delim_entries.append((name[1], scope, e))
         else:
             rep.violated('R3', 'insert/%s' % bname, e.where, 'implicit layer path inserted with behaviour %s' % bname)
     # each row inserts one Prepend and one Delimiter entry, under the same directory test
@@ -182,6 +248,11 @@ def run(ctx, rep):
     rep.check(pairs_ok, 'R3', 'insert/pair', where, 'each row inserts one Prepend and one Delimiter entry', 'rows insert %s' % per_beh)
     for n, sc, dr in sorted(got):
         d_ok = any(d[0] == n and d[1] == sc and dr in d[2] for d in delims)
+        if not d_ok and any(n_ == n and sc_ == sc and (e.opaque or any(H.mentions_dir_test(v, root, L.comps, dr) for v, _ in e.views))
+                            for n_, sc_, e in delim_entries):
+            rep.unproven('R2', 'insert/Delimiter/guard/%s/%s' % (n, sc), where, 'the Delimiter entry of %s (%s) depends on a test of <layer>/%s that could not '
+                         'be expressed as Path::is_dir of that directory' % (n, sc, dr))
+            continue
         rep.check(d_ok, 'R2', 'insert/Delimiter/guard/%s/%s' % (n, sc), where, 'the delimiter of %s is set under is_dir(<layer>/%s)' % (n, dr),
                   'the Delimiter entry of %s (%s) is not guarded by Path::is_dir of the row\'s directory' % (n, sc))
     # ---- R1 ----------------------------------------------------------------------------------------
@@ -216,6 +287,11 @@ def run(ctx, rep):
         own = dir_of[(n, sc)]
         for grp in e.groups:
             if not any(H.is_dir_of(v, root, L.comps, weak=True) == own or H.is_layer_dir_test(v, root, L.comps) for v in grp):
+                if any(H.mentions_dir_test(v[0], root, L.comps, own) for v in grp) and not any(H.mentions_no_follow(v[0]) for v in grp):
+                    # computed from a symlink-following stat of the row's own directory, in a spelling that is not
+                    # recognised as *the* directory test: undecided
+                    acc['opaque'].append('%s (%s): %s' % (n, sc, vstr(grp[-1][0])[:90]))
+                    continue
                 acc['guard'].append('%s (%s) also depends on %s == %s' % (n, sc, vstr(grp[-1][0])[:90], grp[-1][1]))
         if e.opaque:
             acc['opaque'].append('%s (%s)' % (n, sc))
@@ -313,7 +389,27 @@ def run(ctx, rep):
         acc = [(fn, bi, how) for fn, bi, how in field_accesses(prog, fld, L.LE) if not fn.derived]
         writers = sorted({fn.path for fn, bi, how in acc if how in ('write', 'refmut', 'init')})
         readers = sorted({fn.path for fn, bi, how in acc if how in ('read', 'ref', 'arg')})
-        rep.check(writers == [L.R_LAYER], 'R5', 'writers/' + fld, where, 'written only by read_from_layer_dir', 'written by %s' % writers)
+        # (a private helper that only read_from_layer_dir reaches and that merely hands out a reference to the field —
+        # `fn implicit_delta_mut(&mut self, scope) -> Option<&mut LayerEnvDelta>` — is part of the reader: what is inserted
+        # through that reference is an effect of read_from_layer_dir and goes through R1-R3 like any other insert)
+        rd_ = prog.fns.get(L.R_LAYER)
+        from_reader = set(prog.reach([rd_])) if rd_ else set()
+        callers_w = prog.callers()
+
+        def only_from_reader(path, depth=0):
+            if path == L.R_LAYER:
+                return True
+            f_ = prog.fns.get(path)
+            if f_ is None or depth > 4 or f_.vis == 'pub' or path not in from_reader:
+                return False
+            if f_.kind == 'Closure' and f_.parent:
+                return only_from_reader(f_.parent, depth + 1)
+            cs_ = [c for c in callers_w.get(path, []) if c.name == path]
+            return bool(cs_) and all(only_from_reader(c.fn.path, depth + 1) for c in cs_)
+        hands_out = {fn.path for fn, bi, how in acc if how == 'refmut'} - {fn.path for fn, bi, how in acc if how in ('write', 'init')}
+        foreign = [w_ for w_ in writers if w_ != L.R_LAYER and not (w_ in hands_out and only_from_reader(w_))]
+        rep.check(bool(writers) and not foreign, 'R5', 'writers/' + fld, where, 'written only by read_from_layer_dir',
+                  'written by %s' % (foreign or writers))
         # read only by apply and by private helpers that only apply can reach; never by anything the writer can reach
         ap = prog.fns.get(L.APPLY)
         wl_ = prog.fns.get(L.W_LAYER)
@@ -343,6 +439,10 @@ def run(ctx, rep):
     # it is iterated is the chain of all its rows (C03_helpers.GrowSlicer, exact or opaque, never the initial literal
     # alone): a table of (directory, delta) pairs assembled in steps is unrolled like a literal table)
     from .C03_helpers import GrowSlicer
-    wf, wt, wcalls = L.writer_scope_table(prog, GrowSlicer(prog))
-    rep.check(sorted(wt) == ['all', 'build', 'launch', 'process[*]'] and all(sc is not None for _, sc, _, _, _ in wcalls), 'R5', 'writer/scopes',
+    gs = GrowSlicer(prog)
+    wf, wt, wcalls = L.writer_scope_table(prog, gs)
+    # (every file write is attributed to the fields of self its path / content are computed from, private helpers looked
+    # into: a writer that ranges over a plan computed from the delta instead of over `.entries` itself persists that delta)
+    wt, loose = H.writer_scopes(prog, gs, wf, wt, wcalls, L.LE)
+    rep.check(sorted(wt) == ['all', 'build', 'launch', 'process[*]'] and not loose, 'R5', 'writer/scopes',
               '%s:%d' % (wf.file, wf.line), 'write_to_layer_dir persists all, build, launch, process only', 'writer persists %s' % sorted(map(str, wt)))
